@@ -33,8 +33,10 @@ def explore(make_world, bodies, traced, bound, judge, max_exec=200000):
     def run_one(prefix):
         s = rs.Sched(prefix=prefix, traced=codes, max_steps=5000)
         w = make_world(s)
-        for name, body in bodies(w):
-            s.spawn(name, body)
+        for item in bodies(w):
+            # (name, body) or (name, body, poller): a poller is a thread whose
+            # loop polls with sleeps (idle until something changes)
+            s.spawn(item[0], item[1], poller=bool(item[2:] and item[2]))
         res = s.run()
         return s, (w, res)
 
